@@ -537,36 +537,34 @@ Definition x_supp (x : xheader) : list (N * N) := supp_from 0 (x_vars x).
 Definition x_ids (x : xheader) : list N := map fst (x_supp x).
 Definition x_permids (x : xheader) : list N := map snd (x_supp x).
 
-Definition hline (key : string) (value : list byte) : list byte := bs key ++ value ++ [10].
 (** [for .. { write!(file, " {x}") }] *)
 Definition sp_list {A} (f : A -> list byte) (l : list A) : list byte := flat_map (fun x => 32 :: f x) l.
 Definition ident (s : list byte) : list byte := s.
 Definition name_of (names : list (list byte)) (v : N) : list byte := nth (N.to_nat v) names [].
 
-Definition print_header (x : xheader) : list byte :=
-  hline ".ver " (bs (if x_ver3 x then "DDDMP-3.0" else "DDDMP-2.0")) ++
-  hline ".mode " [if x_ascii x then 65 else 66] ++
-  hline ".varinfo " [52] ++
-  (if is_nil (x_dd x) then [] else hline ".dd " (fst (write_replacing_control (x_dd x)))) ++
-  hline ".nnodes " (dec (x_nnodes x)) ++
-  hline ".nvars " (dec (x_nvars x)) ++
-  hline ".nsuppvars " (dec (len (x_supp x))) ++
+Definition vername (x : xheader) : string := if x_ver3 x then "DDDMP-3.0"%string else "DDDMP-2.0"%string.
+(** [write_replacing_control(&mut file, settings.diagram_name)] *)
+Definition wdd (x : xheader) : list byte := fst (write_replacing_control (x_dd x)).
+
+(** the header lines before [.nodes], one [writeln!] each (without the line feed) *)
+Definition header_lines (x : xheader) : list (list byte) :=
+  [bs ".ver " ++ bs (vername x); bs ".mode " ++ [if x_ascii x then 65 else 66]; bs ".varinfo " ++ [52]] ++
+  (if is_nil (x_dd x) then [] else [bs ".dd " ++ wdd x]) ++
+  [bs ".nnodes " ++ dec (x_nnodes x); bs ".nvars " ++ dec (x_nvars x); bs ".nsuppvars " ++ dec (len (x_supp x))] ++
   (match x_names x with
    | None => []
    | Some names =>
-     (if x_ver3 x then hline ".varnames" (sp_list ident names) else []) ++
-     hline ".suppvarnames" (sp_list (name_of names) (x_ids x)) ++
-     hline ".orderedvarnames" (sp_list (name_of names) (x_l2v x))
+     (if x_ver3 x then [bs ".varnames" ++ sp_list ident names] else []) ++
+     [bs ".suppvarnames" ++ sp_list (name_of names) (x_ids x);
+      bs ".orderedvarnames" ++ sp_list (name_of names) (x_l2v x)]
    end) ++
-  hline ".ids" (sp_list dec (x_ids x)) ++
-  hline ".permids" (sp_list dec (x_permids x)) ++
-  hline ".nroots " (dec (len (x_rootids x))) ++
-  hline ".rootids" (sp_list dec_z (x_rootids x)) ++
-  (match x_rootnames x with
-   | None => []
-   | Some rn => hline ".rootnames" (sp_list ident rn)
-   end) ++
-  hline ".nodes" [].
+  [bs ".ids" ++ sp_list dec (x_ids x); bs ".permids" ++ sp_list dec (x_permids x);
+   bs ".nroots " ++ dec (len (x_rootids x)); bs ".rootids" ++ sp_list dec_z (x_rootids x)] ++
+  (match x_rootnames x with None => [] | Some rn => [bs ".rootnames" ++ sp_list ident rn] end).
+
+Definition unlines (ls : list (list byte)) : list byte := flat_map (fun l => l ++ [10]) ls.
+
+Definition print_header (x : xheader) : list byte := unlines (header_lines x) ++ bs ".nodes" ++ [10].
 
 (** the trailer [".end\n"] *)
 Definition end_line : list byte := [46; 101; 110; 100; 10].
